@@ -1248,6 +1248,27 @@ def large_programs_c18(n=300):
         out.append({"name": "flood/%s" % fam,
                     "program": {"property": "C18", "run_seed": 0, "rng0": 4, "config": {"large": "flood/" + fam},
                                 "mode": "explicit", "steps": steps}})
+    # churn: hundreds / thousands of array-less composites of a class are built and discarded (containers and instances go
+    # back to the free lists), then an array-bearing instance of the SAME concrete class is built (its containers reuse the
+    # recycled addresses) and observed: flatten leaves, round trip, leaf substitution (I-FLAT on every pool operator)
+    sl_rows = lambda r, j: {"k": "getitem", "of": r, "s0": [j, j + 1], "s1": None}  # noqa: E731
+    for cname, less, bearing in [
+            ("sum_of_slices", {"k": "sum", "args": [_sl(ID), _sl(ID)]}, {"k": "add", "a": _sl(DN), "b": _sl2(DN)}),
+            ("sum_of_3_row_slices", {"k": "sum", "args": [sl_rows(ID, 0), sl_rows(ID, 1), sl_rows(ID, 2)]},
+             {"k": "sum", "args": [sl_rows(DN, 0), sl_rows(DN, 1), sl_rows(DN, 2)]}),
+            ("product_of_slices", {"k": "product", "args": [_sl(GE2), {"k": "transpose_cls", "of": _sl(GE2)}]},
+             {"k": "product", "args": [_sl(DN), {"k": "T", "of": _sl(DN)}]}),
+            ("kron_of_slices", {"k": "kron", "args": [_sl(ID), _sl(ID)]}, {"k": "kron", "args": [_sl(DN), _sl(DN)]}),
+            ("blockdiag_of_slices", {"k": "blockdiag", "args": [_sl(ID), _sl(ID)]}, {"k": "blockdiag", "args": [_sl(DN), _sl(DN)]})]:
+        for count in (1, 40, 700, 3500):
+            steps = [mk("Ch", {"k": "churn", "of": [less], "count": count, "then": bearing}), call("flatten", A=S("Ch")),
+                     call("to_dense", A=S("Ch")), mk("Ch2", bearing), call("flatten", A=S("Ch2"))]
+            steps = copy.deepcopy(steps)
+            for j, st in enumerate(steps):
+                st["id"] = j
+            out.append({"name": "churn/%s/%d" % (cname, count),
+                        "program": {"property": "C18", "run_seed": 0, "rng0": 4, "config": {"large": "churn/" + cname},
+                                    "mode": "explicit", "steps": steps}})
     # one caller-owned Auto object carrying options that only some of the algorithms it turns into accept, handed to every
     # entry point, alone and in ordered pairs (small operand: direct paths; n = 1001: iterative paths)
     ES = [("solve", {"b": arr([N], "f8", 56)}), ("inv", {}), ("eig", {"k": 1, "which": "LM"}), ("eig", {"k": 2, "which": "LM"}),
